@@ -1,3 +1,110 @@
+//! C05 - Persisted state is never older than what was published; restart restores it.
+//! Engine E1 used as a fault enumerator: the real agent + runtime with a recording
+//! `NodePersistence`; for every explored schedule every cut point (crash after each harness step,
+//! kill right after each store call, refusal of each store call, clean stop), then a second
+//! instance is started on the same store and its `on_start` observation is compared with the store.
+
+use asys::grid::{replay, run_grid, GridSpec};
+use asys::oracle::check_c05;
+use asys::scripts::*;
+use asys::world::{set_checker, AsWorld, Cfg, Mode, Step, StoreMode};
+use vcommon::sched::run_one;
+use vcommon::Ctx;
+
+fn scripts() -> Vec<(Vec<(usize, Step)>, usize)> {
+    let mut out = vec![];
+    out.push((sequential(&[vec![sync("v"), cmd("v", "1"), cmd("v", "2"), act(&["@setvs(5)", "@updms{k:1,v:2}"])]]), 1));
+    out.push((sequential(&[vec![sync("m"), act(&["@upd{k:1,v:1}", "@upd{k:2,v:2}"]), act(&["@rem(1)", "@upd{k:3,v:3}"]), cmd("m", "@clear"), act(&["@upd{k:4,v:4}"])]]), 1));
+    out.push((sequential(&[vec![link("v"), link("t"), act(&["@sett(9)", "@setv(3)"]), cmd("t", "8")]]), 1));
+    out.push((sequential(&[vec![act(&["@setv(1)", "@setw(2)", "@upd{k:1,v:1}"]), sync("v"), sync("w"), sync("m")]]), 1));
+    out.push((sequential(&[vec![act(&["@updms{k:1,v:1}", "@updms{k:2,v:2}", "@remms(1)"]), act(&["@clrms", "@updms{k:3,v:3}", "@setvs(7)"])]]), 1));
+    for s in [
+        sequential(&[vec![link("v"), link("m")], vec![cmd("v", "1"), act(&["@upd{k:1,v:1}", "@clr", "@upd{k:2,v:2}"]), cmd("v", "2")]]),
+        vec![(0, link("v")), (1, cmd("v", "1")), (0, link("m")), (1, act(&["@upd{k:1,v:1}", "@upd{k:1,v:2}"])), (1, cmd("v", "2"))],
+    ] {
+        out.push((s, 2));
+    }
+    out
+}
+
+fn base(script: &[(usize, Step)], remotes: usize, cap: usize, budget: usize, mode: Mode) -> Cfg {
+    let mut c = Cfg::basic(script.to_vec(), remotes);
+    c.cap = cap;
+    c.budget = budget;
+    c.mode = mode;
+    c.store = StoreMode::Recording;
+    c.restart = true;
+    c
+}
+
 fn main() {
-    vcommon::machinery_failure("C05: engine not built yet");
+    // the injected kill points unwind through the agent future; keep stderr quiet for them
+    let default_hook = std::panic::take_hook();
+    std::panic::set_hook(Box::new(move |info| {
+        let msg = info.payload().downcast_ref::<String>().map(|s| s.as_str()).or_else(|| info.payload().downcast_ref::<&str>().copied()).unwrap_or("");
+        if !msg.contains("verif: store kill point") {
+            default_hook(info);
+        }
+    }));
+    let ctx = Ctx::from_env("C05");
+    set_checker(check_c05);
+    if let Some(r) = ctx.replay_request() {
+        replay(&ctx, r);
+        ctx.finish("fault_enumeration", "replay");
+    }
+    let quick = ctx.quick();
+    let sc = scripts();
+    let grid: Vec<(usize, usize, Mode)> = if quick { vec![(8, 2, Mode::Eager), (4096, 64, Mode::Burst)] } else { vec![(8, 2, Mode::Eager), (8, 64, Mode::SlowRead), (4096, 64, Mode::Burst), (48, 3, Mode::Eager)] };
+
+    // --- leg 1: every cut point of the canonical schedule of every configuration
+    let mut cut_cfgs = vec![];
+    let mut sched_cfgs = vec![];
+    for (script, remotes) in &sc {
+        for &(cap, budget, mode) in &grid {
+            let b = base(script, *remotes, cap, budget, mode);
+            let len = match run_one::<AsWorld>(&b, &[], false) {
+                Ok(r) => r.choices.len() as u64,
+                Err(e) => vcommon::machinery_failure(&format!("canonical run failed: {}", e)),
+            };
+            sched_cfgs.push(b.clone());
+            for k in 1..=len {
+                let mut c = b.clone();
+                c.crash_at = Some(k);
+                cut_cfgs.push(c);
+            }
+            for n in 0..(if quick { 16 } else { 30 }) {
+                for kind in [0u8, 1u8] {
+                    let mut c = b.clone();
+                    c.store_fault = Some((kind, n));
+                    cut_cfgs.push(c);
+                }
+            }
+        }
+    }
+    run_grid(&ctx, GridSpec { name: "cuts-canonical".into(), cfgs: cut_cfgs.clone(), bound: 0, max_exec_per_cfg: 10, wall_cap_s: if quick { 20.0 } else { 600.0 } });
+
+    // --- leg 2: schedules with <= 1 deviation (2 thorough), clean stop at the end or at any position
+    let mut cfgs = vec![];
+    for c in &sched_cfgs {
+        cfgs.push(c.clone());
+        let mut f = c.clone();
+        f.fault_stop = true;
+        cfgs.push(f);
+        let mut t = c.clone();
+        t.ticks = 1;
+        t.final_stop = false;
+        cfgs.push(t);
+    }
+    run_grid(&ctx, GridSpec { name: "sched-stop-restart".into(), cfgs, bound: if quick { 1 } else { 2 }, max_exec_per_cfg: if quick { 10_000 } else { 500_000 }, wall_cap_s: if quick { 20.0 } else { 900.0 } });
+
+    // --- leg 3 (thorough): every cut point of every schedule with <= 1 deviation
+    if !quick {
+        run_grid(&ctx, GridSpec { name: "cuts-x-sched-d1".into(), cfgs: cut_cfgs, bound: 1, max_exec_per_cfg: 100_000, wall_cap_s: 1500.0 });
+    }
+    ctx.assume("the store is the harness's in-memory recorder (real stores: C13); a kill is modelled at harness-step and store-call boundaries, not inside a store call");
+    ctx.assume("tokio select! start index and HashMap iteration order are fixed per VERIF_SEED, not enumerated");
+    ctx.finish(
+        "fault_enumeration",
+        "every cut point (crash after each step, kill after / refusal of each store call, clean stop, inactivity stop) of every explored schedule of the real agent+runtime with a recording store, followed by a restart on the same store",
+    );
 }
